@@ -174,14 +174,34 @@ def run(ctx):
             if name.startswith("describe"):
                 recorder_forward(chk, "C17.c", f, expect_sites=1)
             else:
+                from facts import PredFlow
+                from props.common import opt_alts
+
                 inner = [c for c in nonforeign_calls(f) if (c.t.get("trait") or "").endswith("recorder::Recorder")]
-                ok = len(inner) == 1 and callee_method_name(inner[0]) == name
+                eks = [c for c in nonforeign_calls(f) if c.is_("TracingContext<R, F>::enhance_key")]
+                ok = len(inner) in (1, 2) and all(callee_method_name(c) == name for c in inner) and len(eks) == 1 and is_param(arg_syms(eks[0])[1], 1)
                 if ok:
-                    a = arg_syms(inner[0])
-                    k = strip_sym(a[1])
-                    ok = sym_is_call(k, "Option<T>::unwrap_or") and sym_is_call(strip_sym(k[2][0]), "Option<T>::as_ref") and "enhance_key" in sym_str(k[2][0]) and is_param(k[2][1], 1) and is_param(a[2], 2)
-                    eks = [c for c in nonforeign_calls(f) if c.is_("TracingContext<R, F>::enhance_key")]
-                    ok = ok and len(eks) == 1 and is_param(arg_syms(eks[0])[1], 1)
+                    # the key handed to the inner recorder is the enhanced key when there is one, else the original
+                    pf = PredFlow(f, lambda subj, v: {"Some": "P", "None": "N"}.get(v) if sym_is_call(subj, "enhance_key") else None)
+                    seen_kinds = set()
+                    for c in inner:
+                        a = arg_syms(c)
+                        ok = ok and is_param(a[2], 2)
+                        for alt, note in opt_alts(t, a[1]):
+                            alt = strip_sym(alt)
+                            if "enhance_key" in sym_str(alt) and "Some" in repr(alt):
+                                seen_kinds.add("enhanced")
+                                if len(inner) == 2 and pf.at(c.bb) != "P":
+                                    ok = False
+                            elif is_param(sym_through(alt), 1):
+                                seen_kinds.add("original")
+                                if len(inner) == 2 and pf.at(c.bb) != "N":
+                                    ok = False
+                                if len(inner) == 1 and note != "if-none":
+                                    ok = False
+                            else:
+                                ok = False
+                    ok = ok and seen_kinds == {"enhanced", "original"}
                 chk.ob("C17.c", f.path, ok, f"{name}(enhance_key(key).unwrap_or(key), metadata)" if ok else f"{name} does not register under the enhanced key (else the original) with the metadata unchanged", f.loc())
         for grp in ("describe", "register"):
             fk = {k: ms.get(f"{grp}_{k}") for k in ("counter", "gauge", "histogram")}
